@@ -181,12 +181,14 @@ def check_seg(ctx, spec, seg, tag):
     bucket_cls = '%s/%s' % (kind, tag if kind != 'A' else 'arc')
     for name, got, ref_lo, ref_hi, s_lo, s_hi in (('x', (xmin, xmax), ex[0], ex[1], ex[2], ex[3]), ('y', (ymin, ymax), ey[0], ey[1], ey[2], ey[3])):
         ctx.check(all(math.isfinite(v) for v in got), 'not_finite/' + bucket_cls, 'bbox %s-range %r' % (name, got))
+        # (size of the miss, and the axis extent / coordinate magnitude it has to be read against: used by the KF02 matcher)
+        det = {'err': max(abs(got[0] - ref_lo), abs(got[1] - ref_hi)), 'axis_ext': ref_hi - ref_lo, 'axis_pos': max(abs(ref_lo), abs(ref_hi))}
         # containment: every sampled point inside
         ctx.check(got[0] <= s_lo + tol and got[1] >= s_hi - tol, 'containment/' + bucket_cls,
-                  'bbox %s-range %r does not contain the curve, whose sampled %s-range is [%r, %r]' % (name, got, name, s_lo, s_hi))
+                  'bbox %s-range %r does not contain the curve, whose sampled %s-range is [%r, %r]' % (name, got, name, s_lo, s_hi), **det)
         # tightness: each side is attained
         ctx.check(abs(got[0] - ref_lo) <= tol and abs(got[1] - ref_hi) <= tol, 'tightness/' + bucket_cls,
-                  'bbox %s-range %r but the curve\'s %s-extremes are [%r, %r]' % (name, got, name, ref_lo, ref_hi))
+                  'bbox %s-range %r but the curve\'s %s-extremes are [%r, %r]' % (name, got, name, ref_lo, ref_hi), **det)
     return xmin, xmax, ymin, ymax
 
 
